@@ -335,6 +335,29 @@ theorem dbfsToPctF_good (h : RoundingLaws rnd) {d : FVal} (hd : GoodDbfs d) :
   obtain ⟨p, hp, hr⟩ := dbfsToPct_good h hq0
   exact ⟨.fin p, by rw [dbfsToPctF_fin, hp]; rfl, p, rfl, hr⟩
 
+/-- a stored dBFS level that reads as a percentage: at most 0 dBFS (anything below -30,
+    -inf included, reads as 0 %); NaN, +inf and positive levels do not qualify -/
+def CtxOk (d : FVal) : Prop := FVal.le d (.fin 0) = true
+
+theorem goodDbfs_ctxOk {d : FVal} (hd : GoodDbfs d) : CtxOk d := by
+  obtain ⟨q, rfl, hq⟩ := hd
+  have hq0 : q ≤ 0 := by rcases hq with rfl | ⟨_, h0⟩ <;> linarith
+  simp [CtxOk, hq0]
+
+theorem dbfsToPctF_ctxOk (h : RoundingLaws rnd) {d : FVal} (hd : CtxOk d) :
+    ∃ p, dbfsToPctF rnd d = .ok p ∧ InPct p := by
+  cases d with
+  | nan => simp [CtxOk, FVal.le] at hd
+  | pinf => simp [CtxOk, FVal.le] at hd
+  | ninf =>
+    refine ⟨.fin pctMin, ?_, pctMin, rfl, by norm_num [pctMin_eq], by norm_num [pctMin_eq]⟩
+    unfold dbfsToPctF
+    rw [if_pos (by simp [FVal.lt])]
+  | fin q =>
+    have hq0 : q ≤ 0 := by simpa [CtxOk] using hd
+    obtain ⟨p, hp, hr⟩ := dbfsToPct_good h hq0
+    exact ⟨.fin p, by rw [dbfsToPctF_fin, hp]; rfl, p, rfl, hr⟩
+
 /-! ### stepping -/
 
 theorem stepUp_inPct (h : RoundingLaws rnd) {v : FVal} (hv : InPct v) :
@@ -411,8 +434,8 @@ theorem d2p_id {d : Rat} (h0 : -30 ≤ d) (h1 : d ≤ 0) :
   rw [dbfsToPct_of_ge roundingLaws_id h0, if_pos h1, mapArith_id]
   norm_num
 
-/-- the stored dBFS level, if any, is one AirPlay accepts -/
-def RaopInv (s : Raop) : Prop := ∀ d, s.ctx = some d → GoodDbfs d
+/-- the stored dBFS level, if any, reads as a percentage -/
+def RaopInv (s : Raop) : Prop := ∀ d, s.ctx = some d → CtxOk d
 
 theorem raopInv_init : RaopInv Raop.init := by intro d hd; cases hd
 
@@ -421,7 +444,7 @@ theorem raop_volume_good (h : RoundingLaws rnd) {s : Raop} (hs : RaopInv s) :
   unfold Raop.volume
   cases hc : s.ctx with
   | none => exact ⟨_, rfl, raopInitialVolume, rfl, by norm_num [raopInitial_eq], by norm_num [raopInitial_eq]⟩
-  | some d => exact dbfsToPctF_good h (hs d hc)
+  | some d => exact dbfsToPctF_ctxOk h (hs d hc)
 
 theorem raop_setVolume_spec (h : RoundingLaws rnd) (s : Raop) {l : FVal} (hl : InPct l) :
     ∃ d p, GoodDbfs d ∧ InPct p ∧ Raop.setVolume rnd s l = (⟨some d⟩, [.recv l, .wire d, .disp p]) := by
@@ -437,7 +460,7 @@ theorem raop_after_set (h : RoundingLaws rnd) (s : Raop) {l : FVal} (hl : InPct 
   obtain ⟨d, p, hg, hp, he⟩ := raop_setVolume_spec h s hl
   rw [he]
   refine ⟨?_, ?_⟩
-  · intro d' hd'; cases hd'; exact hg
+  · intro d' hd'; cases hd'; exact goodDbfs_ctxOk hg
   · intro ev hev
     simp only [List.mem_cons, List.not_mem_nil, or_false] at hev
     rcases hev with rfl | rfl | rfl
